@@ -4,14 +4,21 @@ ENGINES = [
          kind_free_text="TLA+ spec of checkpoint-barrier alignment in workers/operator (sender goroutines: AlignCheck/Park/Unpark/Enqueue; "
                         "event loop: LoopEvent/LoopWatermark/LoopBarrier/CompleteCheckpoint/LoopBatchTimeout; batch timer) with ghost "
                         "state seen/fired/timers and cut[n]; TLC exhaustive + behaviours replayed on a real operator.Operator through "
-                        "scheduler gates (harness/cmd/align, harness/opkit); spec/AlignTrace.tla validates free-running recorded traces"),
+                        "scheduler gates (harness/cmd/align, harness/opkit); spec/AlignTrace.tla validates free-running recorded traces; "
+                        "fault environment switched by constants (CancelCaller: a caller's request context is cancelled while parked / queued / "
+                        "in its barrier; ArmHandlerFail: the next handler invocation fails; batch time-out; stopped) with the deviations "
+                        "Dev_CtxAwareWait, Dev_SwallowFlushError, Dev_IgnoreBarrierFlushError, Dev_ReportWithoutCancel as witness generators"),
 ]
 CHECKS = {
     "C02": dict(
         engine="Align",
         technique="TLA+/TLC model checking of Align.tla; TLC-generated interleavings of concurrent HandleEvent callers forced onto a real "
                   "operator.Operator through verif-tag hooks (operator.align.park/pass) and harness-owned job/handler/timer; reported "
-                  "checkpoints read back by deploying a fresh operator from them; recorded free-running traces validated by AlignTrace.tla",
+                  "checkpoints read back by deploying a fresh operator from them; recorded free-running traces validated by AlignTrace.tla; "
+                  "fault arm: Align.tla's fault environment (request cancellation, failing handler calls, batch time-outs, operator stop) model "
+                  "checked, TLC-simulated fault behaviours and the TLC-generated witness schedules of four named deviations replayed on the "
+                  "real operator with one cancellable context per caller, a handler that fails on demand / when its context is done and a job "
+                  "that refuses a report whose context is done",
         text="TLC exhaustively checks CutExact, CutTimersOK, BatchOK, AckedByAll and the action properties NoEarlyApply / NoEarlyEnqueue over "
              "every interleaving of sender, event-loop and batch-time-out steps for 2-3 runners, scripts of up to 4 items with 1-2 barriers "
              "(incl. one skipped barrier id) and batch sizes 1-2. Hundreds of TLC-simulated schedules per configuration (2-3 runners, up to 3 "
@@ -20,8 +27,23 @@ CHECKS = {
              "watermark of a runner that already delivered barrier N is acted on before OperatorCheckpointComplete(N)); at the end every "
              "OperatorCheckpoint reported to the job is restored into a fresh operator and its content (events, fired timers, pending timers) "
              "must equal the union of the events delivered before the barriers N. Seeded free-running runs with jitter are recorded and "
-             "validated by AlignTrace.tla (with a corrupt-one-field binding self-test).",
+             "validated by AlignTrace.tla (with a corrupt-one-field binding self-test). Fault arm (checks/c02_faults.py): with CancelCaller "
+             "(the context of a runner's request is cancelled at any moment: parked for alignment, queued, between calls, while its barrier is "
+             "processed) and ArmHandlerFail (the next handler invocation - size flush, watermark flush, pre-checkpoint flush, time-out flush - "
+             "fails once) TLC checks that every REPORTED checkpoint is still exactly the demanded cut, that nothing post-barrier is applied "
+             "before a failure was handed out, and that an operator which handed out a failure never reports again; simulated fault behaviours "
+             "are replayed in lockstep (error returns, operator stop, failed reports compared step by step), and in every run TLC generates, from "
+             "the spec with one deviation switched on, the schedules that only a context-aware alignment wait / a swallowed time-out-flush error "
+             "/ an ignored pre-checkpoint-flush error / a report detached from the caller's context follow to a forbidden state: the real "
+             "operator must leave each at the deviating step. After any divergence the alive runners deliver their remaining barriers and every "
+             "checkpoint still reported is judged by its content. Free-running fault runs are validated by AlignTrace.tla.",
         note="Bounded constants; one operator per assembly, all keys in one key group, default DKV memtable size (no flush/compaction during a "
              "run); the reference handler's state encoding defines what 'effect of an event' means; redeploy of a running operator (DESIGN 7 "
-             "#22) is C15's; storage is a local tmpfs directory because memory:// cannot be re-opened by a second operator."),
+             "#22) is C15's; storage is a local tmpfs directory because memory:// cannot be re-opened by a second operator. Fault arm: "
+             "'delivered' means the HandleEvent call returned nil; a runner stops at the first call that returns an error and a cancelled request "
+             "context stays cancelled for the runner's remaining calls (what the source runner and the RPC handler do; retries of the HTTP client "
+             "are not modelled); the job client always honours the context of a report, the handler honours it or ignores it (both explored); "
+             "a failed handler call has no partial effects; once the operator handed out a failure (failed handler call, failed report) it is "
+             "not required to keep later events out of its state - it never reports a checkpoint again, and if it does the content is judged; "
+             "HandleDeploy / halt paths under faults are C15's."),
 }
